@@ -317,6 +317,15 @@ def evaluate(prop, t, tp, d, o, ns, mo):
             if jsonish:
                 bad = [e for e in im["invalid"] if not loc_typed(t, instantiate(d), e[0], e[1])]
                 if bad: fails.append("loc-is-not-a-path-of-external-names"); info["bad_loc"] = bad[:3]
+            if "depreq" in getattr(t, "tags", ()) or any(f.get("required_by") for f in getattr(t, "fields", [])):
+                # the dependent_required rules of the class at the root, read off its declaration: every absent field that a present field requires is
+                # reported, with the names of the present fields that require it, and nothing else is
+                dd = instantiate(d)
+                if isinstance(dd, dict):
+                    want = sorted([[f["alias"]], ["missing_required_by", sorted(a for a in f["required_by"] if a in dd)]] for f in t.fields
+                                  if f.get("required_by") and f["alias"] not in dd and not f["required"] and any(a in dd for a in f["required_by"]))
+                    got = sorted(e for e in im["invalid"] if isinstance(e[1], list) and e[1] and e[1][0] == "missing_required_by" and len(e[0]) == 1)
+                    if got != want: fails.append("dependent-required-violations-differ-from-the-declared-rules"); info["declared_rules_give"] = want
             im2 = run_impl(tp, d, o)
             if im2 != im: fails.append("errors-not-deterministic")
             if jsonish and not o["coerce"] and im["invalid"] is not None: aliaser_check(t, tp, d, o, im, fails, info)
